@@ -151,3 +151,43 @@ def check_names(ctx, rule=None):
     ctx.ob(rule, "names:%d functions" % len(reach), True, found="%d functions in scope (%d analysed directly), all names bound in %d" % (len(reach), len(seeds), n_ok),
            required="every name read is bound", mod=mods[0], node=None)
     ctx.notes.append("rule N scope: %d functions of %s" % (len(reach), ", ".join(mods)))
+
+
+# ---------------------------------------------------------------------------------------------------------------------
+# Rule X (every property): a function the check analysed has no exit the rules have never seen
+# ---------------------------------------------------------------------------------------------------------------------
+EXITS_TABLE = os.path.join(VERIF, "sa", "exits_table.json")
+
+
+def count_exits(fn):
+    """return / yield statements of the function's own scope (nested functions are functions of their own)"""
+    from .alpha import own_nodes
+    return sum(1 for n in own_nodes(fn) if isinstance(n, (ast.Return, ast.Yield, ast.YieldFrom)))
+
+
+def exits_table_of(mod, tree):
+    funcs, _ = index_functions(mod, tree)
+    return {q: count_exits(f) for q, f in funcs.items()}
+
+
+def check_exits(ctx):
+    """A `return` added to an analysed function (a fast path, a cache hit, a new special case) is an exit no rule has read: the rules decide the exits they know,
+    so the run cannot vouch for the function any more.  Reported as an analysis error (exit 2), never as a violation and never silently passed."""
+    if not os.path.exists(EXITS_TABLE):
+        return
+    table = json.load(open(EXITS_TABLE))
+    m = ctx.model
+    new = []
+    for mod, tree in m.modules.items():
+        rec = table.get(mod)
+        if rec is None:
+            continue
+        funcs, classes = index_functions(mod, tree)
+        for q, f in funcs.items():
+            full = mod + "." + q
+            if full not in ctx.functions and not any(full.startswith(c + ".") for c in ctx.functions if c in {mod + "." + k for k in classes}):
+                continue
+            if q in rec and count_exits(f) > rec[q]:
+                new.append("%s has %d return / yield statements, the rules were confirmed on %d" % (full, count_exits(f), rec[q]))
+    if new and ctx.broken is None:
+        ctx.broken = "an analysed function has an exit the rules have never read (a fast path / cache / special case added): " + "; ".join(new[:3])
